@@ -176,18 +176,20 @@ structure ExampleSum where
   args : CallArgs
   setters : List (Text × Ex)
 
+/-- the identifier and the example value of one input -/
+def exampleDecl (schemas : SchemaTable) (p : Param) : Except ExX (Text × Ex) :=
+  match liftXP (sanitize p.name), toRustExampleValue schemas p.ty p.name with
+  | .ok i, .ok v => .ok (i, v)
+  | .error x, _ => .error x
+  | _, .error x => .error x
+
 /-- `generate_example` -/
 def makeExample (schemas : SchemaTable) (cfg : Cfg) (op : Operation) : Except ExX ExampleSum :=
   let pkg := toSnake cfg.name
   -- the imports are parsed as paths: a crate name that is a keyword (other than the path keywords) panics
   if keywords.contains pkg && !([cs!"super", cs!"self", cs!"crate", cs!"try"].contains pkg) then .error .importPath else
   let useStruct := usesStruct op.params
-  let val (p : Param) : Except ExX (Text × Ex) :=
-    match liftXP (sanitize p.name), toRustExampleValue schemas p.ty p.name with
-    | .ok i, .ok v => .ok (i, v)
-    | .error x, _ => .error x
-    | _, .error x => .error x
-  match liftXP (opFile op.name), mapE val (mandatory op.params), mapE val (setters op.params), liftXP (opMethod op.name),
+  match liftXP (opFile op.name), mapE (exampleDecl schemas) (mandatory op.params), mapE (exampleDecl schemas) (setters op.params), liftXP (opMethod op.name),
         liftXP (opRequiredStruct op.name) with
   | .ok stem, .ok decls, .ok sets, .ok m, .ok rs =>
     .ok { stem := stem,
